@@ -1043,7 +1043,10 @@ func (ctx *Context) evaluate() {
 				return
 			}
 
-			num, _, _, detailText := RollWoD(ctx.RandSrc, addLine, wodState.pool, wodState.points, wodState.threshold, wodState.isGE, getRollMode())
+			num, _, _, detailText := rollWoDWithBudget(ctx.RandSrc, addLine, wodState.pool, wodState.points, wodState.threshold, wodState.isGE, getRollMode(), numOpCountAdd)
+			if ctx.Error != nil {
+				return
+			}
 			ret := NewIntVal(num)
 			details[len(details)-1].Ret = ret
 			details[len(details)-1].Text = detailText
@@ -1079,7 +1082,10 @@ func (ctx *Context) evaluate() {
 			if !doubleCrossCheck(ctx, addLine, dcState.pool, dcState.points) {
 				return
 			}
-			success, _, _, detailText := RollDoubleCross(ctx.RandSrc, addLine, dcState.pool, dcState.points, getRollMode())
+			success, _, _, detailText := rollDoubleCrossWithBudget(ctx.RandSrc, addLine, dcState.pool, dcState.points, getRollMode(), numOpCountAdd)
+			if ctx.Error != nil {
+				return
+			}
 			ret := NewIntVal(success)
 			details[len(details)-1].Ret = ret
 			details[len(details)-1].Text = detailText
